@@ -65,6 +65,8 @@ inductive GV
   | map (kvs : List (GV × GV))
   | nilMap
   | struct (fs : List (FieldInfo × GV))
+  | tm (out : String) (viaValue : Bool) (fs : List (FieldInfo × GV))
+      -- a struct whose type has `MarshalText` returning `out`: on values (`viaValue`) or only on pointers
 deriving Repr
 
 def GV.isOpq : GV → Option Nat
@@ -73,7 +75,7 @@ def GV.isOpq : GV → Option Nat
 
 /-- Array, Slice, Struct, Map: what `printValue` dereferences through a top-level pointer -/
 def GV.isContainer : GV → Bool
-  | .slice _ | .nilSlice | .array _ | .map _ | .nilMap | .struct _ => true
+  | .slice _ | .nilSlice | .array _ | .map _ | .nilMap | .struct _ | .tm _ _ _ => true
   | _ => false
 
 /-- kinds for which `fmtPointer` prints an address -/
@@ -138,6 +140,7 @@ def rawLeaves (ρ : Nat → String) (top : Bool) : GV → List Leaf
   | .map kvs => rawLeavesKV ρ kvs
   | .nilMap => []
   | .struct fs => rawLeavesF ρ fs
+  | .tm _ _ fs => rawLeavesF ρ fs
 def rawLeavesL (ρ : Nat → String) : List GV → List Leaf
   | [] => []
   | v :: vs => rawLeaves ρ false v ++ rawLeavesL ρ vs
@@ -179,6 +182,7 @@ def pv (td : TD) (c : FmtCtx) (ρ : Nat → String) (top ci : Bool) : GV → Lis
   | .map kvs => if !top && ci && c.verb == 'w' then rawLeavesKV ρ kvs else pvKV td c ρ ci kvs
   | .nilMap => []
   | .struct fs => if !top && ci && c.verb == 'w' then rawLeavesF ρ fs else pvF td c ρ ci fs
+  | .tm _ _ fs => if !top && ci && c.verb == 'w' then rawLeavesF ρ fs else pvF td c ρ ci fs   -- MarshalText is not a fmt interface
 def pvL (td : TD) (c : FmtCtx) (ρ : Nat → String) (ci : Bool) : List GV → List Leaf
   | [] => []
   | v :: vs => pv td c ρ false ci v ++ pvL td c ρ ci vs
@@ -232,6 +236,7 @@ def GV.plainIn : GV → Bool
   | .array vs => GV.plainInL vs
   | .map kvs => GV.plainInKV kvs
   | .struct fs => GV.plainInF fs
+  | .tm _ _ fs => GV.plainInF fs
 def GV.plainInL : List GV → Bool
   | [] => true
   | v :: vs => v.plainIn && GV.plainInL vs
@@ -257,6 +262,7 @@ def GV.hasUnexported : GV → Bool
   | .array vs => GV.hasUnexportedL vs
   | .map kvs => GV.hasUnexportedKV kvs
   | .struct fs => GV.hasUnexportedF fs
+  | .tm _ _ fs => GV.hasUnexportedF fs
   | _ => false
 def GV.hasUnexportedL : List GV → Bool
   | [] => false
@@ -285,6 +291,11 @@ def pathConsult : String → Pos → List (Option String)
   | "zap.Stringer", _ => [some "String"]
   | "zap.Any", _ => [some "MarshalLogObject", some "Error", some "String", none]
   | "zap.Reflect", .value => [some "MarshalJSON", some "MarshalText", none]
+  | "zapconsole.Stringer", _ => [some "String"]                -- zapcore console encoder: same field resolution, other writer
+  | "zapconsole.Any", _ => [some "MarshalLogObject", some "Error", some "String", none]
+  | "zapconsole.Reflect", .value => [some "MarshalJSON", some "MarshalText", none]
+  | "slog.text", _ => [some "LogValue", some "MarshalText", some "Format", some "Error", some "String", none] -- TextHandler: TextMarshaler, else %+v
+  | "slog.json", _ => [some "LogValue", some "MarshalJSON", some "Error", some "MarshalText", none]          -- JSONHandler: error, else json.Marshal
   | "conv", _ => [none]                                         -- string(s): the explicit conversion
   | _, _ => [none]
 
@@ -303,7 +314,8 @@ def pathText (td : TD) (path : String) (pos : Pos) (s : String) : String :=
 
 def knownPaths : List (String × Pos) :=
   [("json", .value), ("json", .mapKey), ("yaml", .value), ("yaml", .mapKey), ("gob", .value), ("gob", .mapKey),
-   ("text", .value), ("binary", .value), ("zap.Stringer", .value), ("zap.Any", .value), ("zap.Reflect", .value)]
+   ("text", .value), ("binary", .value), ("zap.Stringer", .value), ("zap.Any", .value), ("zap.Reflect", .value),
+   ("zapconsole.Stringer", .value), ("zapconsole.Any", .value), ("zapconsole.Reflect", .value), ("slog.text", .value), ("slog.json", .value)]
 
 /-! ## config-map encoder -/
 
@@ -335,6 +347,7 @@ def isZero (ρ : Nat → String) : GV → Bool
   | .map _ => false
   | .nilMap => true
   | .struct fs => isZeroF ρ fs
+  | .tm _ _ fs => isZeroF ρ fs
 def isZeroL (ρ : Nat → String) : List GV → Bool
   | [] => true
   | v :: vs => isZero ρ v && isZeroL ρ vs
@@ -376,6 +389,10 @@ def enc (td : TD) (ρ : Nat → String) : GV → Except EncErr Any
   | .map kvs => do let m ← encKV td ρ kvs []; pure (.map m)
   | .nilMap => .ok (.map [])
   | .struct fs => do let m ← encF td ρ fs []; pure (.map m)
+  | .tm out viaValue fs =>
+    -- encodeStruct → encodeHook: TextMarshalerHookFunc asks `from.Interface().(encoding.TextMarshaler)` of the struct
+    -- *value*: a pointer-receiver MarshalText is not found and the struct is encoded field by field
+    if viaValue then .ok (.str out) else do let m ← encF td ρ fs []; pure (.map m)
 def encL (td : TD) (ρ : Nat → String) : List GV → Except EncErr (List Any)
   | [] => .ok []
   | v :: vs => do let x ← enc td ρ v; let xs ← encL td ρ vs; pure (x :: xs)
@@ -440,6 +457,7 @@ def GV.kindName : GV → String
   | .array _ => "array"
   | .map _ | .nilMap => "map"
   | .struct _ => "struct"
+  | .tm _ _ _ => "struct"
 
 def insertSorted (p : String × String) : List (String × String) → List (String × String)
   | [] => [p]
